@@ -1693,6 +1693,43 @@ func segment.Find
                             && (forall i, j :: 0 <= i && i < j && j < len(ret0) ==> ret0[i].Offset < ret0[j].Offset)
                             && len(ret0) < 1152921504606846976
                             && (ret0 == nil || fresh(region(ret0)))
+    // gSegs[dir]: the number of segments in a directory - by definition what Find finds there
+    ensures ret1 == nil ==> len(ret0) == gSegs[dir]
+    ensures is(ret1, fs.ErrNotExist) ==> gSegs[dir] == 0
+    ensures ret1 != nil ==> ioerr(ret1) || is(ret1, fs.ErrNotExist)
+
+// ---------------------------------------------------------------- offline entry points (api.go; C07, C17, C20)
+// each hands its directory and the index parameters of the options on, and returns the verdict
+
+func Check
+    flags noframe only_dir
+    assigns all
+    assert[dir_args]     arg0 == dir && arg1.Times == opts.TimeIndex && arg1.Keys == opts.KeyIndex at call CheckDir 1
+    ensures[dir_verdict] err == nil && gSegs[dir] > 0 ==> gDone["headcheck"] == old(gDone)["headcheck"] + 1
+
+func Recover
+    flags noframe only_dir
+    assigns all
+    assert[dir_args]     arg0 == dir && arg1.Times == opts.TimeIndex && arg1.Keys == opts.KeyIndex at call RecoverDir 1
+    ensures[dir_verdict] err == nil && gSegs[dir] > 0 ==> gDone["headcheck"] == old(gDone)["headcheck"] + 1
+
+func Migrate
+    flags noframe only_dir
+    assigns all
+    assert[dir_args]     arg0 == dir && arg1 == version.messages && arg2 == version.index && arg3.Times == opts.TimeIndex && arg3.Keys == opts.KeyIndex at call MigrateDir 1
+    ensures[dir_all]     err == nil ==> gDone["migrate"] == old(gDone)["migrate"] + gSegs[dir]
+
+func Backup
+    flags noframe only_dir
+    assigns all
+    assert[dir_args]     arg0 == src && arg1 == dst at call BackupDir 1
+    ensures[dir_all]     err == nil ==> gDone["backup"] == old(gDone)["backup"] + gSegs[src]
+
+func Stat
+    flags noframe only_dir
+    assigns all
+    assert[dir_args]     arg0 == dir && arg1.Times == opts.TimeIndex && arg1.Keys == opts.KeyIndex at call StatDir 1
+    ensures[dir_segments] err == nil ==> ret0.Segments == gSegs[dir]
 
 func Open
     flags only_flock only_struct only_version only_order noframe
